@@ -100,6 +100,33 @@ Proof.
   split; [rewrite Hl; unfold tokenLength in *; lia|exact Hf].
 Qed.
 
+(** the synthesised token is the prefix followed by the random source's bytes, and nothing
+    else: two dials send the same token exactly when the source delivered the same bytes *)
+Lemma dummyPop_is_prefix_oracle tlen prefix tail :
+  (length prefix <= Z.to_nat tlen)%nat ->
+  dummyPop tlen prefix tail = prefix ++ firstn (Z.to_nat tlen - length prefix) tail.
+Proof. intros H. unfold dummyPop. rewrite firstn_all2 by lia. reflexivity. Qed.
+
+Lemma resolveToken_is_prefix_oracle ctl prefix tail conf :
+  tokenLength ctl prefix > 0 ->
+  resolveToken None ctl prefix tail conf
+  = Some (prefix ++ firstn (Z.to_nat (tokenLength ctl prefix) - length prefix) tail).
+Proof.
+  intros Hpos. unfold resolveToken. destruct (Z.gtb_spec (tokenLength ctl prefix) 0); [|lia].
+  rewrite dummyPop_is_prefix_oracle by (unfold tokenLength; lia). reflexivity.
+Qed.
+
+Lemma token_fresh_iff ctl prefix tail1 tail2 conf1 conf2 :
+  tokenLength ctl prefix > 0 ->
+  let k := (Z.to_nat (tokenLength ctl prefix) - length prefix)%nat in
+  (resolveToken None ctl prefix tail1 conf1 = resolveToken None ctl prefix tail2 conf2
+   <-> firstn k tail1 = firstn k tail2).
+Proof.
+  intros Hpos k. rewrite !resolveToken_is_prefix_oracle by assumption. fold k. split.
+  - intros H. inversion H as [H1]. apply app_inv_head in H1. exact H1.
+  - intros ->. reflexivity.
+Qed.
+
 Lemma resolveToken_explicit t ctl prefix tail conf :
   resolveToken (Some t) ctl prefix tail conf = t.
 Proof. reflexivity. Qed.
